@@ -101,6 +101,32 @@ func check(c Case) (r pbt.Result) {
 		// can overshoot the end volume by at most (inflow + release) * 60 s, i.e. the release by that times the
 		// steepest slope of the release curves
 		eps := 3e-4 + 5e-5*rhi + maxSlope*60*(I+rhi)
+		// ... and the integrator does not resolve an equilibrium it crosses inside the step: once the release is
+		// within its absolute tolerance of the net inflow, sub-steps of any length are accepted and the volume
+		// settles around the level where release = net inflow, on either side of it (a reach at 509.7 m^3 with a
+		// 1658 s time constant and 5.9e-5 m^3/s of rain ends the day at 503.9, having dipped to where the minimum
+		// release is zero, not at the exact 503.07).  Beyond such an equilibrium the release is bounded by the net
+		// inflow itself, so the bounds are relaxed to it.  The
+		// net inflow is the inflow plus the reported rain minus evaporation rate, the latter known to a factor of 2
+		// (the surface area varies within the step), and not credited at all from an empty store.
+		atm := RV[t] - EV[t]
+		aLo, aHi := 0.5*atm, 2*atm
+		if atm < 0 {
+			aLo, aHi = 2*atm, 0.5*atm
+		}
+		if interp(vlo, vols, areas) == 0 && aLo > 0 {
+			aLo = 0
+		}
+		netLo, netHi := math.Max(0, I+aLo), I+aHi
+		// (the end volume itself can lie on the far side: after a dip below the equilibrium a long sub-step started
+		// at zero release carries the volume above it again; this needs a net inflow, pure draw-down is monotone)
+		if netHi > 0 && netLo < rlo {
+			rlo = netLo
+			r.Label("equilibrium-may-be-crossed")
+		}
+		if netHi > rhi {
+			rhi = netHi
+		}
 		if Q[t] < rlo-eps {
 			r.Failf("step %d: outflow %v below the release rule's minimum %v over the volumes traversed [%v, %v] (demand %v)", t, Q[t], rlo, vlo, vhi, d)
 			return
